@@ -42,6 +42,42 @@ using boost::math::constants::two_pi;
 
 using namespace vfps;
 
+#ifdef INOVESA_VERIF
+#include <cstdlib>
+#include <cstdio>
+#include <csignal>
+#include <set>
+/* verification hook: numbered interrupt points (see /verif/DESIGN.md, Appendix A) */
+static void vfps_verif_point(const char* label)
+{
+    static unsigned long counter = 0;
+    static bool init = false;
+    static std::set<unsigned long> sigat;
+    static FILE* tracefile = nullptr;
+    if (!init) {
+        init = true;
+        if (const char* s = std::getenv("INOVESA_VERIF_SIGINT_AT")) {
+            char* end = const_cast<char*>(s);
+            while (*end) {
+                unsigned long v = std::strtoul(end,&end,10);
+                if (v > 0) sigat.insert(v);
+                while (*end == ',' || *end == ' ') end++;
+            }
+        }
+        if (const char* t = std::getenv("INOVESA_VERIF_TRACE")) {
+            tracefile = std::fopen(t,"w");
+        }
+    }
+    counter++;
+    if (tracefile) { std::fprintf(tracefile,"%lu %s\n",counter,label); std::fflush(tracefile); }
+    if (sigat.count(counter)) { std::raise(SIGINT); }
+}
+#define INOVESA_VERIF_POINT(label) vfps_verif_point(label)
+#else
+#define INOVESA_VERIF_POINT(label)
+#endif
+
+
 /**
  * @file
  * @brief main Inovesa file
@@ -83,6 +119,7 @@ int main(int argc, char** argv)
     //Install signal handler for SIGINT
     signal(SIGINT, Display::SIGINT_handler);
     #endif // INOVESA_ENABLE_INTERRUPT
+    INOVESA_VERIF_POINT("S0");
 
     /*
      * Program options might be such that the program does not have
@@ -98,6 +135,7 @@ int main(int argc, char** argv)
         std::cerr << "error: " << e.what() << std::endl;
         return EXIT_FAILURE;
     }
+    INOVESA_VERIF_POINT("S1");
 
     #if INOVESA_USE_OPENCL == 1
     auto cldev = opts.getCLDevice();
@@ -139,6 +177,7 @@ int main(int argc, char** argv)
     #endif // INOVESA_USE_OPENGL
         display = make_display( ofname );
     }
+    INOVESA_VERIF_POINT("S2");
 
     oclhptr_t oclh(nullptr);
 
@@ -524,6 +563,7 @@ int main(int argc, char** argv)
         }
     }
 
+    INOVESA_VERIF_POINT("S3");
     // an initial renormalization might be applied
     if (renormalize >= 0) {
         grid_t1->updateXProjection();
@@ -533,6 +573,7 @@ int main(int argc, char** argv)
 
     auto grid_t2 = std::make_shared<PhaseSpace>(*grid_t1);
     auto grid_t3 = std::make_shared<PhaseSpace>(*grid_t1);
+    INOVESA_VERIF_POINT("S4");
 
     // find highest peak for display (and information in the log)
     meshdata_t maxval = std::numeric_limits<meshdata_t>::min();
@@ -659,6 +700,7 @@ int main(int argc, char** argv)
     }
     Display::printText("... with synchronous phase at "+sstream.str());
     } // context of information printing
+    INOVESA_VERIF_POINT("S5");
 
     const std::vector<meshaxis_t> slip {{ angle,alpha[1]/alpha[0]*angle,
                                             alpha[2]/alpha[0]*angle }};
@@ -677,6 +719,7 @@ int main(int argc, char** argv)
     auto drm =std::make_unique<DriftMap>( grid_t1,grid_t3,slip
                                         , E0,interpolationtype,interpol_clamp
                                         , oclh );
+    INOVESA_VERIF_POINT("S6");
 
     // time constant for damping and diffusion
     const timeaxis_t  e1 = (t_damp > 0) ? 2.0/(fs*t_damp*steps) : 0;
@@ -705,6 +748,7 @@ int main(int argc, char** argv)
         Display::printText("Fokker-Planck-Term is neglected.");
         fpm = new Identity(grid_t3,grid_t1,oclh);
     }
+    INOVESA_VERIF_POINT("S7");
 
 
 
@@ -725,6 +769,7 @@ int main(int argc, char** argv)
             = vfps::makeImpedance( padded_bins
                                  , oclh
                                  , fmax,R_bend,f_rev,(gap>0)?gap:-1);
+    INOVESA_VERIF_POINT("S8");
 
 
     // field for radiation (not for self-interaction)
@@ -732,6 +777,7 @@ int main(int argc, char** argv)
                             , 0 // no spacing
                             , oclh
                             , f_rev, revolutionpart);
+    INOVESA_VERIF_POINT("S9");
 
     /**************************************************************************
      * Part modeling the self-interaction of the electron-bunch.              *
@@ -761,6 +807,7 @@ int main(int argc, char** argv)
     } else {
         wm = new Identity( grid_t1,grid_t2,oclh);
     }
+    INOVESA_VERIF_POINT("S10");
 
     /* Load coordinates for particle tracking.
      * Particle tracking is for visualization puproses only,
@@ -786,6 +833,7 @@ int main(int argc, char** argv)
                           + npart.str()
                           + " particles.");
     }
+    INOVESA_VERIF_POINT("S11");
 
     // initialze the rest of the display elements
     #if INOVESA_USE_OPENGL == 1
@@ -880,6 +928,7 @@ int main(int argc, char** argv)
     }
 
 
+    INOVESA_VERIF_POINT("S12");
     Display::printText("Starting the simulation.");
 
     // time between two status updates (in seconds)
@@ -903,6 +952,7 @@ int main(int argc, char** argv)
     grid_t1->variance(1);
 
     Display::printText(status_string(grid_t1,0,rotations),false);
+    INOVESA_VERIF_POINT("S13");
 
     #if INOVESA_USE_HDF5 == 1
     const auto h5save = opts.getSavePhaseSpace();
@@ -924,6 +974,7 @@ int main(int argc, char** argv)
 
 
 
+    INOVESA_VERIF_POINT("S14");
     #if INOVESA_USE_OPENCL == 1
     if (oclh) {
         oclh->finish();
@@ -946,10 +997,12 @@ int main(int argc, char** argv)
      * (everything inside this loop will be run a multitude of times)
      */
     while (simulationstep<laststep && !Display::abort) {
+    INOVESA_VERIF_POINT("L0");
         if (wkm != nullptr) {
             // works on XProjection
             wkm->update();
         }
+    INOVESA_VERIF_POINT("L1");
         if (renormalize > 0 && simulationstep%renormalize == 0) {
             // works on XProjection
             grid_t1->integrateAndNormalize();
@@ -957,14 +1010,17 @@ int main(int argc, char** argv)
             // works on XProjection
             grid_t1->integrate();
         }
+    INOVESA_VERIF_POINT("L2");
 
         if (outstep > 0 && simulationstep%outstep == 0) {
+    INOVESA_VERIF_POINT("O0");
 
             // works on XProjection
             grid_t1->integrate();
             grid_t1->variance(0);
             grid_t1->updateYProjection();
             grid_t1->variance(1);
+    INOVESA_VERIF_POINT("O1");
             #if INOVESA_USE_OPENCL == 1
             if (oclh) {
                 grid_t1->syncCLMem(OCLH::clCopyDirection::dev2cpu);
@@ -983,21 +1039,28 @@ int main(int argc, char** argv)
 
                 hdf_file->append(*grid_t1,
                         static_cast<double>(simulationstep)/steps, at);
+    INOVESA_VERIF_POINT("O2");
                 rdtn_field.updateCSR(fc);
+    INOVESA_VERIF_POINT("O3");
                 hdf_file->append(&rdtn_field);
+    INOVESA_VERIF_POINT("O4");
                 if (wkm != nullptr) {
                     hdf_file->append(wkm);
                 }
+    INOVESA_VERIF_POINT("O5");
                 hdf_file->appendTracks(trackme);
+    INOVESA_VERIF_POINT("O6");
 
                 if (drfm) {
                     hdf_file->appendRFKicks(drfm->getPastModulation());
                 }
+    INOVESA_VERIF_POINT("O7");
             }
             #endif // INOVESA_USE_HDF5
             #if INOVESA_USE_HDF5 == 1 || INOVESA_USE_OPENGL == 1
             outstepnr++;
             #endif
+    INOVESA_VERIF_POINT("O8");
             #if INOVESA_USE_OPENGL == 1
             if (display != nullptr) {
                 if (psv != nullptr) {
@@ -1030,18 +1093,28 @@ int main(int argc, char** argv)
             #endif // INOVESSA_USE_GUI
             Display::printText(status_string(grid_t1,static_cast<float>(simulationstep)/steps,
                                rotations),false,updatetime);
+    INOVESA_VERIF_POINT("O9");
         }
         wm->apply();
+    INOVESA_VERIF_POINT("M1");
         wm->applyToAll(trackme);
+    INOVESA_VERIF_POINT("M2");
         rfm->apply();
+    INOVESA_VERIF_POINT("M3");
         rfm->applyToAll(trackme);
+    INOVESA_VERIF_POINT("M4");
         drm->apply();
+    INOVESA_VERIF_POINT("M5");
         drm->applyToAll(trackme);
+    INOVESA_VERIF_POINT("M6");
         fpm->apply();
+    INOVESA_VERIF_POINT("M7");
         fpm->applyToAll(trackme);
+    INOVESA_VERIF_POINT("M8");
 
         // udate for next time step
         grid_t1->updateXProjection();
+    INOVESA_VERIF_POINT("L3");
 
         #if INOVESA_USE_OPENCL == 1
         if (oclh) {
@@ -1050,14 +1123,17 @@ int main(int argc, char** argv)
         #endif // INOVESA_USE_OPENCL
 
         simulationstep++;
+    INOVESA_VERIF_POINT("L4");
     } // end of main simulation loop
 
     #if INOVESA_USE_HDF5 == 1
     // save final result
     if (hdf_file != nullptr) {
+    INOVESA_VERIF_POINT("F0");
         if (wkm != nullptr) {
             wkm->update();
         }
+    INOVESA_VERIF_POINT("F1");
         /* Without renormalization at this point
          * the last time step might behave slightly different
          * from the ones before.
@@ -1069,9 +1145,11 @@ int main(int argc, char** argv)
             // works on XProjection
             grid_t1->integrate();
         }
+    INOVESA_VERIF_POINT("F2");
         grid_t1->variance(0);
         grid_t1->updateYProjection();
         grid_t1->variance(1);
+    INOVESA_VERIF_POINT("F3");
         #if INOVESA_USE_OPENCL == 1
         if (oclh) {
             grid_t1->syncCLMem(OCLH::clCopyDirection::dev2cpu);
@@ -1084,19 +1162,26 @@ int main(int argc, char** argv)
         hdf_file->append(*grid_t1,
                          static_cast<double>(simulationstep)/steps,
                          HDF5File::AppendType::All);
+    INOVESA_VERIF_POINT("F4");
         rdtn_field.updateCSR(fc);
+    INOVESA_VERIF_POINT("F5");
         hdf_file->append(&rdtn_field);
+    INOVESA_VERIF_POINT("F6");
         if (wkm != nullptr) {
             hdf_file->append(wkm);
         }
+    INOVESA_VERIF_POINT("F7");
         hdf_file->appendTracks(trackme);
+    INOVESA_VERIF_POINT("F8");
 
         if (drfm) {
             hdf_file->appendRFKicks(drfm->getPastModulation());
         }
+    INOVESA_VERIF_POINT("F9");
         if (wake_field != nullptr) {
             hdf_file->appendPadded(wake_field);
         }
+    INOVESA_VERIF_POINT("F10");
     }
     #endif // INOVESA_USE_HDF5
     #if INOVESA_USE_PNG == 1
@@ -1109,11 +1194,13 @@ int main(int argc, char** argv)
     Display::printText(status_string(
                            grid_t1, static_cast<float>(
                                simulationstep)/steps, rotations));
+    INOVESA_VERIF_POINT("E0");
 
     delete wake_field;
 
     delete wm;
     delete fpm;
+    INOVESA_VERIF_POINT("E1");
 
     // Print Aborted instead of Finished if it was aborted. Also for log file.
     if(Display::abort) {
@@ -1121,6 +1208,7 @@ int main(int argc, char** argv)
     } else {
         Display::printText("Finished.");
     }
+    INOVESA_VERIF_POINT("E2");
 
     return EXIT_SUCCESS;
 }
